@@ -72,6 +72,12 @@ def _make(rng, typ):
             a = GMK.render(tree, rng, extra_paren=0.0, max_redundant=0)
             b = GMK.render(tree, rng, extra_paren=0.5, max_redundant=3)
             return a, b, GMK.render(GMK.formula(rng, pool, p_odd=0.0), rng)
+        if rng.random() < 0.2:
+            # redundant (doubled) parentheses around a group that precedence needs: equal to the singly parenthesised
+            # spelling, different from the unparenthesised one
+            x, y, z = (GM.marker_atom(rng) for _ in range(3))
+            op1, op2 = rng.choice([("and", "or"), ("or", "and")])
+            return f"{x} {op1} (({y} {op2} {z}))", f"{x} {op1} ({y} {op2} {z})", (f"{x} {op1} {y} {op2} {z}" if op1 == "and" else f"({x} {op1} {y}) {op2} {z}")
         m = GM.marker(rng, 2)
         # the second object may be the marker attached to a parsed requirement
         return m, ("req:" if rng.random() < 0.4 else "") + respell_marker(rng, m), GM.marker(rng, 2)
